@@ -464,6 +464,28 @@ def w_arith_general(task):
     u = float(np.ldexp(1.0, -(p - 1)))
     T = [t(v) for v in (1.0, 1.0 + u, 1.5 * u, -u / 2, 1.25 * u * u, 0.0)]
     tails = [[a, b, c] for a in T for b in T for c in T]
+    # operands of very different lengths for multiply (every anti-diagonal of the product must be formed)
+    U = [t(v) for v in (1.0, 3.0, 0.5, 0.0, 1.0 + u, -2.0)]
+    long_lists = [[a, b, c] for a in U for b in U for c in U] + [[a, b, c, d] for a in U[:4] for b in U[:4] for c in U[:4] for d in U[:4]]
+    for e1 in ([[a] for a in U] + [[a, b] for a in U[:4] for b in U[:4]])[task["lo"]::task["stride"]]:
+        s1 = fsum(e1)
+        for e2 in long_lists:
+            for a_, b_ in ((e1, e2), (e2, e1)):
+                if not products_exact(a_, b_):
+                    continue
+                exact = s1 * fsum(e2)
+                for functional in (False, True):
+                    part["evaluations"] += 1
+                    case = {"kind": "arith", "op": "multiply", "dtype": dtname, "functional": functional, "e1": [float(v).hex() for v in a_], "e2": [float(v).hex() for v in b_], "general": True}
+                    try:
+                        with np.errstate(all="ignore"):
+                            r = ap.multiply(ctx, list(a_), list(b_), functional=functional)
+                    except Exception as ex:
+                        add_violation(part, f"multiply:{dtname}:functional={functional}:raises:general-list", f"multiply({a_},{b_}) raised {type(ex).__name__}: {ex}", case)
+                        continue
+                    err = abs(fsum(r) - exact)
+                    if not (err < lead_ulp(r, dtname)) and exact != 0:
+                        add_violation(part, f"multiply:{dtname}:functional={functional}:error>=1ulp-of-leading-term:operands-of-different-length", f"multiply({a_},{b_}) = {r}: error {float(err)!r} (exact {float(exact)!r})", case)
     for e1 in [l for l in lists if len(l) <= 2][task["lo"]::task["stride"]]:
         s1 = fsum(e1)
         for e2 in tails[:: task["pair_stride"]]:
